@@ -76,6 +76,11 @@ def ownEntries (st : Store) : Loc := st.loc.filter (fun e => sh e.2.upstream = s
 def ghostPre (st : Store) (op : Op) (g : Ghost) : Ghost :=
   match op with
   | .save _ c => if sh c.upstream ≠ st.cfg.shard then g else g.forget c.name
+  | .saveStored k n sp stt lb =>
+    -- the cached condition changes in place before anything is written: nothing is claimed about it meanwhile
+    match edited st k n sp stt lb with
+    | none => g
+    | some (_, c') => if sh c'.upstream ≠ st.cfg.shard then g.forget n else (g.forget n).forget c'.name
   | .delete _ n => g.unhold n
   | .deleteUpstream k _ => (llistUp k st.loc).foldl (fun g e => g.unhold e.2.name) g
   | _ => g
@@ -84,6 +89,11 @@ def ghostPre (st : Store) (op : Op) (g : Ghost) : Ghost :=
 def ghostPost (st : Store) (op : Op) (res : Res) (g : Ghost) : Ghost :=
   match op, res with
   | .save _ c, .ok => if st.cfg.writeThrough then g.hold c.name c.data .ack else g
+  | .saveStored k n sp stt lb, .ok =>
+    -- what is acknowledged is the content at the time of the acknowledgement: the stored condition as edited
+    match edited st k n sp stt lb with
+    | none => g
+    | some (_, c') => if st.cfg.writeThrough then g.hold c'.name c'.data .ack else g
   | .delete _ n, .ok => g.absent n
   | .deleteUpstream k _, .ok => (llistUp k st.loc).foldl (fun g e => g.absent e.2.name) g
   | .flush _, .ok => holdFlushed (ownEntries sh st) g
@@ -120,6 +130,7 @@ def annotate (g : Ghost) : List Pt → List (Ghost × Api) × Ghost
 /-- names another goroutine wrote while a flush was running -/
 def raced : Op → List Str
   | .save _ c => [c.name]
+  | .saveStored _ n _ _ _ => [n]
   | _ => []
 
 /-- Every (claims, API) pair the history must honour during and after one observed operation, and the claims in
@@ -144,7 +155,7 @@ def checkObs (g : Ghost) (o : Obs) : List (Ghost × Api) × Ghost :=
         let gc := ghostPost sh o.st intr o.ires a2.2
         let a3 := annotate gc o.seg3
         let own := match intr with
-          | .save _ _ => (ownEntries sh o.st).filter (fun e => ! (raced intr).contains e.2.name)
+          | .save _ _ | .saveStored _ _ _ _ _ => (ownEntries sh o.st).filter (fun e => ! (raced intr).contains e.2.name)
           | _ => []     -- e.g. a `Load` inside the window replaces pending cached conditions: the flush claims nothing
         let ge := if o.res = .ok then holdFlushed own a3.2 else a3.2
         (a1.1 ++ a2.1 ++ a3.1 ++ [(ge, o.fin)], ge)
@@ -185,13 +196,18 @@ def checkAll : Store → Ghost → World → List OpI → List (Ghost × Api)
 /-- every method that writes to the API excludes a running flush (regenerated facts: `KG.Model.K8sStore.genLocks`) -/
 def GoodLocks (L : Locks) : Prop := L.flush = true ∧ L.delete = true ∧ L.deleteUpstream = true ∧ L.save = true
 
+/-- calls the histories do not place inside a running flush although no lock keeps them out -/
 def isLoad : Op → Bool
   | .load => true
+  | .saveStored _ _ _ _ _ => true
   | _ => false
 
 /-- A call that can land inside a running flush of a store in mode `wt`: one that does not wait for the store
     mutex. `Load` takes no lock but is not issued concurrently with anything: the limiter calls it once, right
-    after it has built the store (assumption; a `Load` inside a flush replaces pending cached conditions). -/
+    after it has built the store (assumption; a `Load` inside a flush replaces pending cached conditions).
+    `saveStored` inside a flush is not modelled: its in-place change of a cached object is seen by the flush, whose
+    snapshot shares the pointers (a data race of the caller; the flush then persists the changed content before
+    the `Save` is acknowledged) — snapshots are values here. -/
 def allowedIntr (L : Locks) (wt : Bool) (intr : Op) : Bool := mayRunInside L wt intr && ! isLoad intr
 
 /-- the histories the locks allow, from a store in mode `wt` (a `restart` sets the mode of the new store) -/
